@@ -127,23 +127,23 @@ Qed.
 
 (* ================= file.Meta ================= *)
 
-(* time.Time.UnmarshalText(t.Format(RFC3339Nano)) = t, instant and offset, for
-   years 0000..9999 and zone offsets of whole minutes (known findings otherwise) *)
-Definition time_zone_roundtrip (o : oracles) (t : tm) : Prop :=
-  o_tparse o P_text (o_tfmt o L_zone_nano t) = Ok t.
+(* time.Time.UnmarshalText(t.UTC().Format(RFC3339Nano)) = t in UTC, for years
+   0000..9999 (known finding otherwise); after the repair the zone offset is not
+   written, so offsets with seconds no longer shift the instant *)
+Definition time_text_roundtrip (o : oracles) (t : tm) : Prop :=
+  o_tparse o P_text (o_tfmt o L_utc_nano t) = Ok (utc t).
 
 Definition hash_unset (h : hashout) : bool := N.eqb (ho_hash h) 0 && is_nil (ho_out h).
 
 Definition fmeta_dom (o : oracles) (v : fmeta) : Prop :=
-  time_zone_roundtrip o (fm_date v) /\
+  time_text_roundtrip o (fm_date v) /\
   fits64 (fm_size v) /\ fits64 (fm_width v) /\ fits64 (fm_height v) /\ fits64 (fm_length v) /\
   (hash_unset (fm_hash v) = true \/ hashout_dom o (fm_hash v)).
 
-(* the value decoded when no hash is written: the zero HashOutput *)
+(* the date comes back in UTC; when no hash is written, the zero HashOutput *)
 Definition fmeta_norm (v : fmeta) : fmeta :=
-  if hash_unset (fm_hash v)
-  then mkfmeta (fm_media v) (fm_name v) (fm_date v) (fm_size v) zero_hashout (fm_width v) (fm_height v) (fm_length v)
-  else v.
+  mkfmeta (fm_media v) (fm_name v) (utc (fm_date v)) (fm_size v)
+          (if hash_unset (fm_hash v) then zero_hashout else fm_hash v) (fm_width v) (fm_height v) (fm_length v).
 
 Lemma hash_unset_zero h : hash_unset h = true -> h = zero_hashout.
 Proof.
@@ -154,13 +154,13 @@ Qed.
 Lemma fmeta_roundtrip : roundtrip fmeta_c fmeta_dom fmeta_norm.
 Proof.
   intros o [media name date size h w ht len] [Hd [Hs [Hw [Hh [Hl Hx]]]]]. cbn in Hd, Hs, Hw, Hh, Hl, Hx.
-  unfold time_zone_roundtrip in Hd.
+  unfold time_text_roundtrip in Hd.
   pose proof (copy_uint_dec size Hs) as Cs. pose proof (copy_uint_dec w Hw) as Cw.
   pose proof (copy_uint_dec ht Hh) as Ch. pose proof (copy_uint_dec len Hl) as Cl.
   unfold fmeta_c, c_enc, c_dec, fmeta_tr, fmeta_un, fmeta_norm; cbn [fm_media fm_name fm_date fm_size fm_hash fm_width fm_height fm_length].
   fold (hash_unset h). destruct (hash_unset h) eqn:Eu.
   - cbn [bind app]. eexists; split; [reflexivity|].
-    remember (o_tfmt o L_zone_nano date) as dt eqn:Edt.
+    remember (o_tfmt o L_utc_nano date) as dt eqn:Edt.
     decnn size E1. decnn w E2. decnn ht E3. decnn len E4.
     destruct media, name, dt; repeat (progress (cbn; rewrite ?app_nil_r, ?Hd, ?Cs, ?Cw, ?Ch, ?Cl)); split; reflexivity.
   - destruct Hx as [Hx|Hx]; [discriminate|].
@@ -169,7 +169,7 @@ Proof.
     destruct (hashout_un_tree o h th Hx Et) as [U1 U2].
     destruct (U2 ns_meta) as [th' [Wh Uh']].
     cbn [bind rmap]. eexists; split; [reflexivity|].
-    remember (o_tfmt o L_zone_nano date) as dt eqn:Edt.
+    remember (o_tfmt o L_utc_nano date) as dt eqn:Edt.
     assert (Eth : exists n a k, th = Elem n a k /\ nlocal n = str "hash").
     { unfold hashout_tree in Et. destruct (hash_name _ _); [|discriminate]. inversion Et. eexists; eexists; eexists; split; reflexivity. }
     destruct Eth as [hn [ha [hk [-> Ehn]]]].
